@@ -11,7 +11,7 @@ panic compares the drop glue the code performed, item by item and in order, with
 `frameGlue` of the model.  At the `settled` / `end` markers it prints the model's shared state; the harness
 prints what it observed.
 
-    run <f11 f12 f20 bits> <free text>     -> ok           new engine, model `init cfg`
+    run <f11 f12 f40 bits> <free text>     -> ok           new engine, model `init cfg`
     <tid> lock|unlock|bplock|bpunlock|unreg|defuse|droplock|dropbp <k>
     <tid> reg <caller> <callee>
     <tid> bnew <0|1> | bsub | genter | gexit | gdetach | bump | acq
